@@ -47,7 +47,8 @@ class C16(core.Check):
     chunk = 1200
     required_buckets = {b: 3 for b in ['line>6-bytes', 'line>16-bytes', 'gap-without-org', 'muted-region', 'zero-length-line',
                                        'included-file', 'predefined-data', 'width:4', 'width:8', 'width:12', 'width:16',
-                                       'width:24', 'width:32', 'fmt:listing', 'fmt:hex', 'fmt:intel_hex', 'fmt:minhex']}
+                                       'width:24', 'width:32', 'every-line-length-1..40', 'fmt:listing', 'fmt:hex', 'fmt:intel_hex', 'fmt:minhex']}
+    required_buckets['every-line-length-1..40'] = 2
 
     def make_case(self, isa, files, main_name, argv_extra, res, line_ids, tags, origin=0):
         """line_ids: {id(line): (basename, lineno)} for model byte lines"""
@@ -80,8 +81,25 @@ class C16(core.Check):
                                        'image': (layout.image(M, 0, None, 0) or b'').hex()},
                 'tags': sorted(tags)}
 
+    def length_cases(self):
+        """data lines of every length 1..40 bytes (listing rows wrap at 6, hex rows at 16)"""
+        for base in (0, 3):
+            rng = core.rng_for(0, self.pid, 'len', base)
+            isa = gen_prog.layout_isa(16)
+            lines = [{'k': 'org', 'addr': base, 'zone_name': None}]
+            for n in range(1, 41):
+                lines.append({'k': 'data', 'width': 1, 'vals': [(n * 7 + j) & 0xFF for j in range(n)]})
+            res = layout.layout(lines, 16, origin=0, size_of=lambda l, a: gen_prog.byte_line_size(isa, l))
+            layout.memory_map(res, lambda l: gen_prog.byte_line_bytes(isa, l, None, {'GLOBAL': (0, 65535)}))
+            for l in lines:
+                l['text'] = gen_prog.render_line(l, None)
+            ids = {id(l): ('p.asm', k + 1) for k, l in enumerate(lines)}
+            yield self.make_case(isa, {'p.asm': ''.join(l['text'] + '\n' for l in lines)}, 'p.asm', [], res, ids,
+                                 {'width:16', 'every-line-length-1..40'})
+
     def cases(self, tier, seed):
         yield from self.corpus_cases(tier)
+        yield from self.length_cases()
         n_pre = 90
         n = 90 if tier == 'quick' else 2500
         for i in range(n_pre + n):
